@@ -124,7 +124,8 @@ Section Htable.
 
   (* ares_htable_expand *)
   Definition ht_expand (t : htable) : M (bool * htable) :=
-    if Nat.eqb (ht_size t) (Z.to_nat ARES__HTABLE_MAX_BUCKETS) then ret (true, t)
+    (* compared in Z: the constant is 2^24, too large to build as a unary nat when extracted *)
+    if Z.eqb (Z.of_nat (ht_size t)) ARES__HTABLE_MAX_BUCKETS then ret (true, t)
     else
       let nsize := 2 * ht_size t in
       arr <- malloc f ;;
